@@ -218,10 +218,28 @@ func (p *Proof) SetExpected(pk *gabikeys.PublicKey, challenge, response *big.Int
 	p.Nu = acc.Nu
 	p.Challenge = challenge
 	p.Responses["alpha"] = response
-	if !proofstructure.verifyProofStructure((*proof)(p)) {
+	if !proofstructure.verifyProofStructure((*proof)(p)) || !p.basesAreUnits(pk) {
 		return errors.New("malformed nonrevocation proof")
 	}
 	return nil
+}
+
+// basesAreUnits checks that the prover-chosen bases C_r and C_u of the proof of knowledge are units
+// modulo N and that no response is negative. For a non-unit base (e.g. 0) every reconstructed
+// commitment collapses to the same constant, so that the proof would verify without any witness.
+func (p *Proof) basesAreUnits(pk *gabikeys.PublicKey) bool {
+	for _, c := range []*big.Int{p.Cr, p.Cu} {
+		if c == nil || c.Sign() <= 0 || c.Cmp(pk.N) >= 0 ||
+			new(big.Int).GCD(nil, nil, c, pk.N).Cmp(bigOne) != 0 {
+			return false
+		}
+	}
+	for _, r := range p.Responses {
+		if r == nil || r.Sign() < 0 {
+			return false
+		}
+	}
+	return true
 }
 
 func (p *Proof) ChallengeContributions(key *gabikeys.PublicKey) []*big.Int {
@@ -230,7 +248,8 @@ func (p *Proof) ChallengeContributions(key *gabikeys.PublicKey) []*big.Int {
 }
 
 func (p *Proof) VerifyWithChallenge(pk *gabikeys.PublicKey, reconstructedChallenge *big.Int) bool {
-	if p.SignedAccumulator == nil || reconstructedChallenge == nil || !proofstructure.verifyProofStructure((*proof)(p)) {
+	if p.SignedAccumulator == nil || reconstructedChallenge == nil || !proofstructure.verifyProofStructure((*proof)(p)) ||
+		!p.basesAreUnits(pk) {
 		return false
 	}
 	if (*proof)(p).ProofResult("alpha").Cmp(Parameters.bTwoZk) > 0 {
